@@ -9,7 +9,7 @@
 From Coq Require Import String.
 From Coq Require Import NArith ZArith List Bool.
 From Cose Require Import Lib.Base Lib.Cbor Lib.CborProofs Model.GoVal Model.CborGo Model.Wire Model.MsgLogic Model.Msg Model.MsgProofs Model.MsgRoundTrip Model.ValueRoundTrip Model.MsgRoundTripFull
-     Lib.Hex Lib.HexProofs Model.Text Model.TextProofs Model.MsgRoundTripRecip Model.KdfRoundTrip Model.CwtCodec Model.CwtCodecProofs Lib.GenTypes Gen.StructsGen.
+     Lib.Hex Lib.HexProofs Model.Text Model.TextProofs Model.MsgRoundTripRecip Model.KdfRoundTrip Model.CwtCodec Model.CwtCodecProofs Lib.GenTypes Gen.StructsGen Model.KeySet Model.KeySetProofs.
 Import ListNotations.
 
 (* ---- the authenticated byte strings are re-emitted as received *)
@@ -186,3 +186,12 @@ Theorem C09_claims_members_as_declared :
           ("CWTID", "key.ByteStr", "cbor:""7,keyasint,omitempty"" json:""cti,omitempty""")]%string.
 Proof. exact claims_members_as_declared. Qed.
 Print Assumptions C09_claims_members_as_declared.
+
+(* ---- key sets (key.KeySet): MarshalCBOR then UnmarshalCBOR returns every key, in order, in the decoder's normal form
+   (integers as the decoder types them); a nil set is written as null and read back as nil *)
+Theorem C09_keyset_roundtrip : forall (ks : list cosemap) bs, Forall good_map ks ->
+  enc_keyset (Some (map (@Some cosemap) ks)) = Some bs ->
+  (forall it, bs = encode it -> encodable it = true) ->
+  dec_keyset bs = Ok (Some (map read_back ks)).
+Proof. exact keyset_roundtrip. Qed.
+Print Assumptions C09_keyset_roundtrip.
